@@ -37,6 +37,9 @@ class Work:
     def close(self):
         shutil.rmtree(self.root, ignore_errors=True)
 
+import collections
+SEEN_TAGS = collections.Counter()      # tag name → how often the real checker emitted it in this run (evidence: what the comparisons exercised)
+
 def run_tags(path, **opts):
     """the real Checker.check() on `path` → ('ok', [(tagname, canonical extras)]) | ('crash', 'Type: message')"""
     try:
@@ -45,7 +48,10 @@ def run_tags(path, **opts):
     except BaseException as exc:          # a modified tree may raise anything
         if isinstance(exc, (KeyboardInterrupt, SystemExit)):
             raise
+        SEEN_TAGS['<exception ' + type(exc).__name__ + '>'] += 1
         return 'crash', f'{type(exc).__name__}: {exc}'[:300]
+    for name, _extra in calls:
+        SEEN_TAGS[name] += 1
     return 'ok', [(name, ','.join(H.canon_extra(x) for x in extra)) for name, extra in calls]
 
 def tags_of_bytes(work, rel, data, **opts):
